@@ -8,6 +8,8 @@ REGISTRY = {
     'C04': ('checks.cv', 'check_c04'),
     'C06': ('checks.callrun', 'check_c06'),
     'C07': ('checks.callrun', 'check_c07'),
+    'C08': ('checks.c0809', 'check_c08'),
+    'C09': ('checks.c0809', 'check_c09'),
     'C10': ('checks.c10', 'check_c10'),
     'C11': ('checks.c11', 'check_c11'),
     'C12': ('checks.c12', 'check_c12'),
